@@ -90,3 +90,27 @@ let err_name (k : Prelude.err_kind) : string =
 
 let split_ws (s : string) : string list =
   Stdlib.List.filter (fun x -> x <> "") (String.split_on_char ' ' s)
+
+(* registered base images: BASE <name> <hex>; device tokens may be @name^pos:xx^pos:xx *)
+let bases : (string, Bytes.t) Hashtbl.t = Hashtbl.create 8
+let register_base (name : string) (hex : string) : unit =
+  let n = String.length hex / 2 in
+  let b = Bytes.create n in
+  for i = 0 to n - 1 do Bytes.set b i (Char.chr (hexval hex.[2*i] * 16 + hexval hex.[2*i+1])) done;
+  Hashtbl.replace bases name b
+let resolve_dev (tok : string) : coq_N list =
+  if String.length tok > 0 && tok.[0] = '@' then begin
+    match String.split_on_char '^' (String.sub tok 1 (String.length tok - 1)) with
+    | name :: patches ->
+      let b = Bytes.copy (Hashtbl.find bases name) in
+      Stdlib.List.iter (fun p ->
+          match String.split_on_char ':' p with
+          | [pos; x] ->
+            let pos = int_of_string pos in
+            let x = hexval x.[0] * 16 + hexval x.[1] in
+            Bytes.set b pos (Char.chr (Char.code (Bytes.get b pos) lxor x))
+          | _ -> failwith "bad patch") patches;
+      let rec go i acc = if i < 0 then acc else go (i - 1) (byte_tab.(Char.code (Bytes.get b i)) :: acc) in
+      go (Bytes.length b - 1) []
+    | [] -> failwith "bad base token"
+  end else bytes_of_hex tok
